@@ -556,4 +556,25 @@ func (*compiler).VisitReturnStmt$1 [C05]
   loop 0 each freeTemporaries when true
   callsite freeTemporaries requires arg1 == scp && arg2
   callsite exitFuncScope requires arg1 == s.Func
+// ================= C10: module initialisers run exactly once =================
+// the callback VisitImportStmt hands to ast.IterateModuleImports (which is proved, in package ast, to visit every
+// transitively imported module dependencies first): importedModules is the guard of the one init call per module
+// TRUSTED: string functions of the path only
+func getHashableModuleName
+  trusted
+  pure
+
+func (*compiler).VisitImportStmt$2 [C10]
+  requires c != nil && module != nil && c.importedModules != nil && c.mod != nil && c.functions != nil && c.void != nil
+  // a module that was initialised before emits nothing at all
+  ensures old(mapHas(c.importedModules, module)) ==> $ncalls == old($ncalls)
+  callsite NewFunc requires !old(mapHas(c.importedModules, module))
+  callsite NewCall requires !old(mapHas(c.importedModules, module))
+  // the first time: the module is entered into the guard and, in a main module, exactly one call is emitted ...
+  ensures mapHas(c.importedModules, module)
+  ensures !old(mapHas(c.importedModules, module)) && c.cf != nil && c.cbb != nil ==> $ncalls == old($ncalls) + 1
+  // ... of the function that was declared first (the init function, not the dispose function)
+  callsite NewCall requires arg1 == box(module_init) && len(arg2) == 0
+  // the guard only grows
+  ensures forall m *ast.Module :: old(mapHas(c.importedModules, m)) ==> mapHas(c.importedModules, m)
 @*/
